@@ -843,3 +843,93 @@ def reset_before_use(var, func):
     if nx.get('kind') in ('BinaryOperator', 'CXXOperatorCallExpr') and (nx.get('opcode') == '=' or call_name(nx) == 'operator=') and (ref_decl(kids(nx)[0] if nx.get('kind') == 'BinaryOperator' else kids(nx)[1]) or {}).get('id') == var['id']:
         return True
     return False
+
+
+def aliased_reference_locals(func):
+    """[(ref VarDecl, write node, read node)]: a local const reference bound to an element / member
+    of an object, while the same object is written through another expression and the reference is
+    read afterwards (or in the same loop): the "captured value" silently changes with the write."""
+    import re as _re
+    out = []
+    body = body_of(func)
+    if body is None:
+        return out
+
+    def root_of(e):
+        e = strip(e)
+        idx = []
+        while e is not None and e.get('kind') in ('ArraySubscriptExpr', 'ImplicitCastExpr', 'ParenExpr', 'CXXOperatorCallExpr'):
+            if e.get('kind') == 'ArraySubscriptExpr':
+                idx.append(e['inner'][1])
+                e = strip(e['inner'][0])
+            elif e.get('kind') == 'CXXOperatorCallExpr' and call_name(e) == 'operator[]':
+                idx.append(kids(e)[2])
+                e = strip(kids(e)[1])
+            elif e.get('kind') in ('ImplicitCastExpr', 'ParenExpr'):
+                e = strip(kids(e)[0])
+            else:
+                break
+        return (canon(e) if e is not None else None), idx
+
+    for vd in walk(body):
+        if vd.get('kind') != 'VarDecl' or not kids(vd):
+            continue
+        qt = (qtype(vd) or '').rstrip()
+        if not qt.endswith('&') or 'const' not in qt:
+            continue
+        init = strip(kids(vd)[-1])
+        while init is not None and init.get('kind') in ('ImplicitCastExpr', 'ParenExpr', 'MaterializeTemporaryExpr', 'ExprWithCleanups') and kids(init):
+            if init.get('kind') == 'MaterializeTemporaryExpr':
+                init = None      # bound to a temporary: a copy
+                break
+            init = strip(kids(init)[0])
+        if init is None or init.get('kind') not in ('ArraySubscriptExpr', 'MemberExpr', 'CXXOperatorCallExpr'):
+            continue
+        root, idx = root_of(init)
+        if init.get('kind') == 'MemberExpr' and not idx:
+            root = canon(init)
+        if not root:
+            continue
+        scope = vd.get('_p')
+        while scope is not None and scope.get('kind') != 'CompoundStmt':
+            scope = scope.get('_p')
+        if scope is None:
+            continue
+        reads = [x for x in walk(scope) if x.get('kind') == 'DeclRefExpr' and (x.get('referencedDecl') or {}).get('id') == vd['id']]
+        for wn in walk(scope):
+            k = wn.get('kind')
+            tgt = None
+            if k in ('BinaryOperator', 'CompoundAssignOperator') and wn.get('opcode') in ASSIGN_OPS:
+                tgt = wn['inner'][0]
+            elif k == 'UnaryOperator' and wn.get('opcode') in ('++', '--'):
+                tgt = wn['inner'][0]
+            if tgt is None or wn.get('_off', 0) < vd.get('_off', 0):
+                continue
+            if any((y.get('referencedDecl') or {}).get('id') == vd['id'] for y in walk(tgt) if y.get('kind') == 'DeclRefExpr'):
+                continue
+            wroot, widx = root_of(tgt)
+            if strip(tgt).get('kind') == 'MemberExpr' and not widx:
+                wroot = canon(tgt)
+            if wroot != root or len(widx) != len(idx):
+                continue
+            # provably different constant indices cannot alias
+            if any(int_value(a) is not None and int_value(b) is not None and int_value(a) != int_value(b) for a, b in zip(idx, widx)):
+                continue
+            lp = enclosing(wn, ('ForStmt', 'WhileStmt', 'DoStmt', 'CXXForRangeStmt'))
+            in_scope_loop = lp is not None and lp.get('_off', 0) >= scope.get('_off', 0)
+            for rd in reads:
+                later = rd.get('_off', 0) > wn.get('_off', 0)
+                same_loop = in_scope_loop and enclosing(rd, ('ForStmt', 'WhileStmt', 'DoStmt', 'CXXForRangeStmt')) is not None and any(a is lp for a in _ancestors(rd))
+                if later or same_loop:
+                    out.append((vd, wn, rd))
+                    break
+            if out and out[-1][0] is vd:
+                break
+    return out
+
+
+def _ancestors(n):
+    n = n.get('_p')
+    while n is not None:
+        yield n
+        n = n.get('_p')
